@@ -126,6 +126,10 @@ theorem request_headers_eq (o : ClientOpt) (enabled : Bool) (offer : Str) (rnd r
     cases enabled <;> simp [kConnection, kUpgrade, kVersion, kExtensions, kKey]
   · simp [goBytesU64BE, Base64.encode]
 
+/-- `deleteProtectedHeaders` removes exactly the five handshake fields from the configured response headers -/
+theorem deleteProtectedHeaders_eq (h : Header) :
+    Trans.ServerOption_deleteProtectedHeaders h = deleteProtectedHeaders h := rfl
+
 /-- the Go error value of a server-side handshake error -/
 def errOfSErr : SErr → Option GoErr
   | .unauthorized => some (.named "ErrUnauthorized")
